@@ -427,3 +427,52 @@ Example ex_history :
   get (owned (run 0 ops empty_state)) 7 = 0 /\ get (owned (run 0 ops empty_state)) 1 = 2
   /\ get (inbox (run 0 ops empty_state)) 7 = 1.
 Proof. vm_compute. auto. Qed.
+
+(** * Nested transactions: every message at ANY depth is checked, or the transaction is refused *)
+
+Lemma flat_complete : forall m lim l x, flat lim m = Some l -> occurs x m -> In x l.
+Proof.
+  fix IH 1. intros [y|inner] lim l x Hf Ho.
+  - cbn in Hf, Ho. inversion Hf; subst. left. reflexivity.
+  - cbn [flat] in Hf. destruct lim as [|lim']; [discriminate|]. cbn [occurs] in Ho.
+    revert l Hf Ho. induction inner as [|h t IHt]; intros l Hf Ho.
+    + destruct Ho.
+    + destruct (flat lim' h) as [a|] eqn:E1; [|discriminate].
+      match type of Hf with match ?G with _ => _ end = _ => destruct G as [b|] eqn:E2; [|discriminate] end.
+      inversion Hf; subst. apply in_or_app. destruct Ho as [Ho|Ho].
+      * left. eapply IH; eauto.
+      * right. eapply IHt; eauto.
+Qed.
+
+Lemma flat_list_complete : forall ms lim l x m, flat_list lim ms = Some l -> In m ms -> occurs x m -> In x l.
+Proof.
+  induction ms as [|h t IH]; intros lim l x m Hf Hin Ho; [destruct Hin|].
+  cbn in Hf. destruct (flat lim h) as [a|] eqn:E1; [|discriminate]. destruct (flat_list lim t) as [b|] eqn:E2; [|discriminate].
+  inversion Hf; subst. apply in_or_app. destruct Hin as [->|Hin].
+  - left. eapply flat_complete; eauto.
+  - right. eapply IH; eauto.
+Qed.
+
+Lemma ante_nested_sound_lemma : forall lim g tx, ante_nested false lim g tx = true ->
+  forall top spec m, In top tx -> occurs (spec, m) top -> ms_has_meta spec = true ->
+  exists sg, In sg (m_meta_signers m) /\ (sg = m_creator m \/ granted g (m_creator m) sg = true).
+Proof.
+  intros lim g tx H top spec m Hin Ho Hmeta. unfold ante_nested in H.
+  destruct (flat_list lim tx) as [l|] eqn:E; [|discriminate].
+  eapply ante_tx_sound_lemma; eauto. eapply flat_list_complete; eauto.
+Qed.
+
+(** Beyond the limit the transaction is refused, whatever it wraps. *)
+Lemma flat_wrap_beyond : forall lim d m, (lim < d)%nat -> flat lim (wrap d m) = None.
+Proof.
+  induction lim as [|lim IH]; intros d m Hd; (destruct d as [|d]; [inversion Hd|]); cbn.
+  - reflexivity.
+  - rewrite IH by lia. reflexivity.
+Qed.
+
+Lemma flat_wrap_within : forall lim d x, (d <= lim)%nat -> flat lim (wrap d (NLeaf x)) = Some [x].
+Proof.
+  induction lim as [|lim IH]; intros d x Hd; destruct d as [|d]; cbn; try reflexivity.
+  - inversion Hd.
+  - rewrite IH by lia. reflexivity.
+Qed.
